@@ -51,7 +51,7 @@ def run_flow(pid, tier, replay, prefix):
         texts, metas = [w["text"]], [w["meta"]]
     hc = [{"id": i + 1, "mode": "observe", "text": t, "want": ["files", "nodes", "errors", "cfg", "lints"]}
           for i, t in enumerate(texts)]
-    tp, evs = run_harness(rvh, hc, wd, "cfg")
+    tp, evs = run_harness_par(rvh, hc, wd, "cfg")
     for e, m in zip(evs, metas):
         e["case"] = m
         e.setdefault("lints", [])
